@@ -1,10 +1,20 @@
-"""Driver protocol of the WASM runtime, mirroring WasmDspRuntime::{run_main, run_dsp, set_input} in
-crates/lib/mimium-lang/src/runtime/wasm/engine.rs."""
-from mirsym.values import Sc
+"""Driver of the WASM runtime.
+
+The per-sample protocol is NOT mirrored by hand: the MIR of the real `WasmDspRuntime::{new, run_main, set_sample_rate}` and of
+`<WasmDspRuntime as DspRuntime>::{set_input, run_dsp, get_output, try_hot_swap}` and `WasmEngine::{execute_dsp,
+execute_function, current_module_mut, read_memory_f64, get_global_state_data, set_global_state_data}`
+(crates/lib/mimium-lang/src/runtime/wasm/engine.rs) is executed by mirsym.  Only the wasmtime surface is a stub: the methods
+of `WasmModule` (Store + Instance) are served by the wasmsym instance of the emitted module:
+  get_runtime_state_mut -> the modelled RuntimeState;  get_alloc_ptr / set_alloc_ptr -> the exported global;
+  read_memory_f64 -> linear memory (bounds check as in the source);  call_function / call_func_direct -> wasmsym call with
+  the Word<->Val conversion of the source (argument count mismatch -> Err)."""
+import z3
+from mirsym.values import Sc, Agg, Ref, Slice, VecV, StrV, Opaque, UNIT
 from mirsym.interp import Unsupported
+from mirsym.models import some, none, ok, err, as_slice, slice_items
 from .wat import parse_module
 from .exec import Instance, TYMAP
-from .hostwasm import Host
+from .hostwasm import Host, _unref
 
 _mod_cache = {}
 
@@ -21,60 +31,215 @@ def load_module(wat_text):
     return m
 
 
+class ModuleV(object):
+    """wasm::WasmModule = wasmtime Store<RuntimeState> + Instance: here the wasmsym instance and its host state"""
+    __slots__ = ('inst', 'host', 'module')
+
+    def __init__(self, inst, host, module):
+        self.inst = inst
+        self.host = host
+        self.module = module
+
+
+class FuncV(object):
+    """wasmtime::Func handle of an exported function"""
+    __slots__ = ('name',)
+
+    def __init__(self, name):
+        self.name = name
+
+
+def _struct(it, name, **fields):
+    s = it.layouts.find_struct(name)
+    if s is None:
+        raise Unsupported('struct %s not found in the sources' % name)
+    missing = [f for f in s.fields if f not in fields]
+    extra = [f for f in fields if f not in s.fields]
+    if missing or extra:
+        raise Unsupported('struct %s changed: fields %r (driver expects %r)' % (name, s.fields, sorted(fields)))
+    return Agg(name, None, [fields[f] for f in s.fields])
+
+
+def _field(it, agg, sname, fname):
+    s = it.layouts.find_struct(sname)
+    return agg.fields[s.fields.index(fname)]
+
+
+def install_module_models(it):
+    ex = it.models.extra
+    if ex.get('_wasm_module_models'):
+        return
+    ex['_wasm_module_models'] = True
+
+    def mod(a):
+        m = _unref(a)
+        if type(m) is not ModuleV:
+            raise Unsupported('expected WasmModule, got %r' % (m,))
+        return m
+
+    def get_runtime_state_mut(it, args, fr, callee):
+        return some(Ref(mod(args[0]).host.cell, 0))
+    ex['WasmModule::get_runtime_state_mut'] = get_runtime_state_mut
+
+    def get_alloc_ptr(it, args, fr, callee):
+        m = mod(args[0])
+        if '__alloc_ptr' not in m.module.exports:
+            return err(StrV('No __alloc_ptr global export'))
+        g = m.inst.globals[m.inst.export_global('__alloc_ptr')]
+        return ok(Sc('i32', g.v))
+    ex['WasmModule::get_alloc_ptr'] = get_alloc_ptr
+
+    def set_alloc_ptr(it, args, fr, callee):
+        m = mod(args[0])
+        if '__alloc_ptr' not in m.module.exports:
+            return err(StrV('No __alloc_ptr global export'))
+        m.inst.globals[m.inst.export_global('__alloc_ptr')] = Sc('u32', args[1].v)
+        return ok(UNIT)
+    ex['WasmModule::set_alloc_ptr'] = set_alloc_ptr
+
+    def read_memory_f64(it, args, fr, callee):
+        m = mod(args[0])
+        size = m.inst.mem.size_bytes()
+        ov = args[1].v
+        if not isinstance(ov, int):
+            ov2 = z3.simplify(ov)
+            if z3.is_bv_value(ov2):
+                ov = ov2.as_long()
+        if not isinstance(ov, int):
+            # symbolic offset (e.g. a sample value misread as a pointer): the bounds check of the source decides; inside the
+            # memory a symbolic address is beyond what wasmsym models
+            inb = z3.And(z3.ULE(ov, z3.BitVecVal(size - 8, 64)))
+            if it.branch(inb):
+                raise Unsupported('read_memory_f64 at a symbolic offset inside the linear memory')
+            return err(StrV('Memory read out of bounds'))
+        off = ov
+        if off + 8 > size:
+            return err(StrV('Memory read out of bounds'))
+        return ok(m.inst.as_f64(m.inst.mem.load64(off)))
+    ex['WasmModule::read_memory_f64'] = read_memory_f64
+
+    def get_or_cache_function(it, args, fr, callee):
+        m = mod(args[0])
+        name = _unref(args[1]).s
+        kind_ref = m.module.exports.get(name)
+        if kind_ref is None or kind_ref[0] != 'func':
+            return err(StrV("Function '%s' not found in WASM module" % name))
+        return ok(FuncV(name))
+    ex['WasmModule::get_or_cache_function'] = get_or_cache_function
+
+    def call_direct(it, m, fv, words):
+        inst = m.inst
+        fidx = inst.export_func(fv.name)
+        f = m.module.funcs[fidx]
+        if len(f.params) != len(words):
+            return err(StrV('Failed to call function: argument count mismatch: expected %d, found %d' % (len(f.params), len(words))))
+        wargs = []
+        for w, pt in zip(words, f.params):
+            if pt == 'f64':
+                wargs.append(inst.as_f64(w))     # Val::F64(word): raw bits
+            elif pt == 'i64':
+                wargs.append(Sc('u64', inst.as_bits64(w).v))                           # Val::I64(word as i64)
+            else:
+                wargs.append(it.int_to_int(Sc('u64', inst.as_bits64(w).v), 'u32'))     # Val::I32(word as i32)
+        res = inst.call_func(fidx, wargs)
+        outs = []
+        for r in res:
+            if r.t == 'u32':
+                outs.append(it.int_to_int(Sc('i32', r.v), 'u64'))                      # Val::I32(i) => i as u64 (sign-extends)
+            else:
+                outs.append(Sc('u64', inst.as_bits64(r).v))
+        return ok(VecV(outs))
+
+    def call_func_direct(it, args, fr, callee):
+        m = mod(args[0])
+        fv = _unref(args[1])
+        return call_direct(it, m, fv, slice_items(it, as_slice(args[2])))
+    ex['WasmModule::call_func_direct'] = call_func_direct
+
+    def call_function(it, args, fr, callee):
+        m = mod(args[0])
+        r = get_or_cache_function(it, [args[0], args[1]], fr, callee)
+        if r.variant == 1:
+            return r
+        return call_direct(it, m, r.fields[0], slice_items(it, as_slice(args[2])))
+    ex['WasmModule::call_function'] = call_function
+
+
 class WasmRun(object):
-    def __init__(self, it, wasm_json, samplerate=48000.0, host_cls=Host):
+    """one WASM runtime (WasmDspRuntime over a loaded engine) inside one path"""
+
+    def __init__(self, it, wasm_json, samplerate=48000.0, host_cls=Host, workers=None):
+        from mirsym.vmdriver import skel_value
         self.it = it
+        self.wasm_json = wasm_json
         self.module = load_module(wasm_json['wat'])
         self.host = host_cls(it, samplerate)
         self.samplerate = samplerate
         self.inst = Instance(self.module, it, self.host)
+        install_module_models(it)
         io = wasm_json.get('io')
         self.n_in = io['input'] if io else 0
         self.n_out = io['output'] if io else 0
         self.has_io = io is not None
-        self.input_cache = [Sc('u64', 0)] * self.n_in
+        self.modv = ModuleV(self.inst, self.host, self.module)
+        self.engine = self.make_engine(self.modv)
+        io_v = some(Agg('IoChannelInfo', None, [Sc('u32', io['input']), Sc('u32', io['output'])])) if io else none()
+        sk = wasm_json.get('dsp_state_skeleton')
+        sk_v = some(skel_value(it, sk)) if sk is not None else none()
+        # WasmDspRuntime::new(engine, io_channels, dsp_skeleton)
+        self.rt = it.call('WasmDspRuntime::new', [self.engine, io_v, sk_v], None)
+        self.rtref = Ref([self.rt], 0)
+        if workers:
+            it.call('WasmDspRuntime::set_wasm_audioworkers', [self.rtref, VecV(list(workers))], None)
+        # keep retired engines alive like the CLI / mmdump do (set_engine_retire_sender)
+        ch = it.call('std::sync::mpsc::channel', [], None)
+        self.retire_rx = ch.fields[1]
+        it.call('WasmDspRuntime::set_engine_retire_sender', [self.rtref, ch.fields[0]], None)
 
+    def make_engine(self, modv):
+        it = self.it
+        has_dsp = 'dsp' in self.module.exports
+        return _struct(it, 'WasmEngine', runtime=Opaque('WasmRuntime'), current_module=some(modv),
+                       dsp_func=some(FuncV('dsp')) if has_dsp else none())
+
+    # -- accessors -------------------------------------------------------------------------------
+    def cur_engine(self):
+        return _field(self.it, self.rt, 'WasmDspRuntime', 'engine')
+
+    def cur_modv(self):
+        cm = _field(self.it, self.cur_engine(), 'WasmEngine', 'current_module')
+        return cm.fields[0]
+
+    def cur_host(self):
+        return self.cur_modv().host
+
+    # -- protocol (every step is the MIR of the real function) ---------------------------------------
     def run_main(self):
-        if 'main' in self.module.exports:
-            self.inst.call_export('main', [])
-        # Driver::init -> set_sample_rate happens after main (main itself sees the default 44100)
-        self.host.set_sample_rate(self.samplerate)
+        r = self.it.call('WasmDspRuntime::run_main', [self.rtref], None)
+        # Driver::init -> DspRuntime::set_sample_rate after main (main itself sees the default 44100)
+        self.it.call('WasmDspRuntime::set_sample_rate', [self.rtref, Sc('f64', _f2b(self.samplerate))], None)
+        return r
 
     def set_input(self, words):
-        n = min(len(words), len(self.input_cache))
-        self.input_cache[:n] = list(words)[:n]
+        ws = list(words)          # raw words (bit patterns of the f64 samples)
+        if ws:
+            self.it.call('WasmDspRuntime::set_input', [self.rtref, Slice(ws, 0, len(ws))], None)
 
     def run_dsp(self, time_sc):
-        inst = self.inst
-        g_alloc = inst.export_global('__alloc_ptr') if '__alloc_ptr' in self.module.exports else None
-        saved = inst.globals[g_alloc] if g_alloc is not None else None
-        self.host.set_time(time_sc)
-        fidx = inst.export_func('dsp')
-        f = self.module.funcs[fidx]
-        if len(f.params) != len(self.input_cache):
-            raise Unsupported('dsp argument count mismatch: expected %d, found %d' % (len(f.params), len(self.input_cache)))
-        args = []
-        for w, pt in zip(self.input_cache, f.params):
-            if pt == 'f64':
-                args.append(inst.as_f64(w))
-            elif pt == 'i64':
-                args.append(Sc('u64', w.v))
-            else:
-                args.append(self.it.int_to_int(Sc('u64', w.v), 'u32'))
-        res = inst.call_func(fidx, args)
-        out_channels = self.n_out if self.has_io else 1
-        outs = []
-        if out_channels > 1:
-            if res:
-                ptr = inst.conc_addr(inst.as_bits64(res[0]), 0)
-                for ch in range(out_channels):
-                    a = ptr + 8 * ch
-                    if a + 8 > inst.mem.size_bytes():
-                        outs.append(Sc('u64', 0))      # read_memory_f64(..).unwrap_or(0.0)
-                    else:
-                        outs.append(inst.as_bits64(inst.mem.load64(a)))
-        else:
-            outs = [inst.as_bits64(r) if r.t != 'u32' else Sc('u64', r.v) for r in res]
-        if saved is not None:
-            inst.globals[g_alloc] = saved
-        return 0, outs
+        it = self.it
+        rc = it.call('WasmDspRuntime::run_dsp', [self.rtref, Agg('Time', None, [time_sc])], None)
+        # the drivers ask the runtime for its channel count (DspRuntime::io_channels) and read that many samples
+        io = it.call('WasmDspRuntime::io_channels', [self.rtref], None)
+        n_out = it.concretize(io.fields[0].fields[1], 'output channels') if io.variant == 1 else 1
+        s = it.call('WasmDspRuntime::get_output', [self.rtref, Sc('usize', n_out)], None)
+        inst = self.cur_modv().inst
+        outs = [Sc('u64', inst.as_bits64(x).v) for x in slice_items(it, as_slice(s))]
+        return rc, outs
+
+    def try_hot_swap(self, payload):
+        return self.it.call('WasmDspRuntime::try_hot_swap', [self.rtref, payload], None)
+
+
+def _f2b(x):
+    import struct
+    return struct.unpack('<Q', struct.pack('<d', x))[0]
